@@ -204,6 +204,27 @@ pub fn run(ctx: &Ctx) -> Report {
     let c = cases(&models, &[Transport::Spi { buf: 13 }, Transport::Par8, Transport::Par16], 2048);
     run_enumerated(&mut sec, c, ctx.workers, check, |c, _| format!("c05:{}:{}", c.model.name(), c.transport.label()));
     rep.sections.push(sec);
+
+    let mut sec = Section::new(
+        &format!("all-models-all-transports[{}]", ctx.variant),
+        "every built-in model on every transport it supports at pin level (SPI, 8-bit and 16-bit parallel), 2048 colour values spread over the whole range (a model that announces a pixel format which does not match what is sent on one particular interface kind shows with any colour)",
+    );
+    sec.exhaustive = false;
+    let mut c = Vec::new();
+    for &m in &builtin_models() {
+        for t in [Transport::Spi { buf: 16 }, Transport::Par8, Transport::Par16] {
+            if !type_compatible(m, t) || !supported(m, t.kind()) {
+                continue;
+            }
+            let total = 1u32 << m.bits();
+            // 8 chunks of 256 consecutive values, spread over the range
+            for i in 0..8u32 {
+                c.push(ColourCase { model: m, transport: t, start: (total / 8) * i + 97 * i, len: 256 });
+            }
+        }
+    }
+    run_enumerated(&mut sec, c, ctx.workers, check, |c, _| format!("c05:{}:{}", c.model.name(), c.transport.label()));
+    rep.sections.push(sec);
     rep
 }
 
